@@ -1,0 +1,31 @@
+//go:build verif
+
+package service
+
+import (
+	"context"
+	"net"
+	"time"
+)
+
+// VerifHandleConn runs handleConn on an accepted connection with explicit
+// initial payload wait settings, without a listener.
+//
+// It exists only under the verif build tag, for the verification harness in /verif
+// (property C13): together with [NewTCPRelay] it lets the harness drive the relay's
+// per-connection logic with its own [netio.StreamServer], router and collector.
+func (s *TCPRelay) VerifHandleConn(
+	ctx context.Context,
+	clientTCPConn *net.TCPConn,
+	waitForInitialPayload bool,
+	initialPayloadWaitTimeout time.Duration,
+	initialPayloadWaitBufferSize int,
+) {
+	lnc := tcpRelayListener{
+		logger:                       s.logger,
+		waitForInitialPayload:        waitForInitialPayload,
+		initialPayloadWaitTimeout:    initialPayloadWaitTimeout,
+		initialPayloadWaitBufferSize: initialPayloadWaitBufferSize,
+	}
+	s.handleConn(ctx, &lnc, clientTCPConn)
+}
